@@ -110,8 +110,24 @@ Definition gs_list_eqb (e : gscalar -> gscalar -> bool) : list gscalar -> list g
     | _, _ => false
     end.
 
-(** equality of Go scalars as observed.  The float32 computed from a decimal
-    is symbolic in the model and only its type is compared. *)
+(** decimalToFloat: float32(float64(digits) / math.Pow(10, precision)) is
+    symbolic in the model; the observed float32 must be the decimal's value
+    g / 10^p to within one unit in its last place (the double rounding and the
+    inexact power stay far below that).  Beyond 10^400 the power overflows to
+    +Inf in Go and the quotient is a zero. *)
+Definition decimal_ok (g : Z) (p : N) (b : N) : bool :=
+  if N.eqb (f32_exp b) 255 then false
+  else
+    let m := (if N.eqb (f32_exp b) 0 then f32_man b else f32_man b + 2 ^ 23)%N in
+    let e := (if N.eqb (f32_exp b) 0 then -149 else Z.of_N (f32_exp b) - 150)%Z in
+    if N.ltb 400 p then N.eqb m 0
+    else
+      let v := (if N.eqb (f32_sign b) 1 then - Z.of_N m else Z.of_N m)%Z in
+      let t := (10 ^ Z.of_N p)%Z in
+      if (0 <=? e)%Z then (Z.abs (v * t * 2 ^ e - g) <=? t * 2 ^ e)%Z
+      else (Z.abs (v * t - g * 2 ^ (- e)) <=? t)%Z.
+
+(** equality of Go scalars as observed. *)
 Fixpoint gs_eqb (a b : gscalar) {struct a} : bool :=
   match a, b with
   | GString x, GString y | GBytes x, GBytes y => String.eqb x y
@@ -122,7 +138,7 @@ Fixpoint gs_eqb (a b : gscalar) {struct a} : bool :=
   | GBool x, GBool y => Bool.eqb x y
   | GStrings x, GStrings y => strs_eqb x y
   | GList x, GList y => gs_list_eqb gs_eqb x y
-  | GDecimalFloat _ _, GFloat32 _ | GFloat32 _, GDecimalFloat _ _ => true
+  | GDecimalFloat g p, GFloat32 b | GFloat32 b, GDecimalFloat g p => decimal_ok g p b
   | GDecimalFloat g p, GDecimalFloat g' p' => Z.eqb g g' && N.eqb p p'
   | GDeprecated i x, GDeprecated i' y => Bool.eqb i i' && String.eqb x y
   | GOther, GOther => true
